@@ -64,6 +64,10 @@ func runTransformCase(c *trCase, dir string, variant int) (string, string) {
 				if st.Op.Ident {
 					wopts = append(wopts, carv2.StoreIdentityCIDs(true))
 				}
+				if variant == 1 {
+					// "does not use any padding before the inner CARv1 or index": padding options given to WrapV1 change nothing
+					wopts = append(wopts, carv2.UseDataPadding(7), carv2.UseIndexPadding(9))
+				}
 				err = carv2.WrapV1(bytes.NewReader(before), &out, wopts...)
 				if err == nil {
 					err = os.WriteFile(dst, out.Bytes(), 0o644)
